@@ -40,6 +40,9 @@ type Plan struct {
 	Fresh     bool
 	Rotations []Rotation
 	Kinds     []string // request kinds, by order of creation
+	// AckRejected: at the end, with nothing pending (n = 0), the server retires the salt once more and rejects the
+	// client's latest acknowledgement - a message no caller waits for
+	AckRejected bool
 }
 
 type Rotation struct {
@@ -135,6 +138,11 @@ func build(src scen.Source, keys []refsrv.RSAKeyJSON, p Plan) (*scen.Scenario, e
 		steps = append(steps, scen.Step{Op: "answer", Items: []scen.AnsItem{{Tag: tg}}})
 	}
 	steps = append(steps, scen.Step{Op: "await-calls"}, scen.Step{Op: "probe"})
+	if p.AckRejected {
+		last := salts(len(p.Rotations))
+		steps = append(steps, scen.Step{Op: "bad-salt", Salt: last, Push: &scen.PushSpec{Kind: "last-ack", Arg: 4 << 32}},
+			scen.Step{Op: "session-snapshot", Salt: last}, scen.Step{Op: "probe"})
+	}
 	sc.RPC.Steps = steps
 	b, _ := json.Marshal(p)
 	sc.Note = string(b)
@@ -237,7 +245,7 @@ func judge(sc *scen.Scenario, res *scen.Result, runErr error) (string, error) {
 				if e2.Seq >= ev.Seq {
 					break
 				}
-				if e2.Kind == "rotate" || e2.Kind == "new-session" {
+				if e2.Kind == "rotate" || e2.Kind == "new-session" || e2.Kind == "bad-salt" {
 					fmt.Sscanf(e2.Note, "salt=%d", &want)
 				}
 			}
@@ -297,6 +305,9 @@ func classes(p Plan) ([]string, bool) {
 		cls = append(cls, "session:fresh-keyed")
 	} else {
 		cls = append(cls, "session:resumed")
+	}
+	if p.AckRejected {
+		cls = append(cls, "rejected-message-is-an-ack")
 	}
 	cls = append(cls, fmt.Sprintf("rotations=%d", len(p.Rotations)))
 	if len(p.Rotations) >= 2 {
@@ -359,6 +370,7 @@ func genPlan(t *rapid.T) Plan {
 			AnswerNow: rapid.IntRange(0, 6).Draw(t, "answernow"), NewSession: rapid.IntRange(0, 5).Draw(t, "newsession") == 0, HoldRejected: rapid.IntRange(0, 2).Draw(t, "holdrejected") == 0,
 			Order: rapid.Uint64().Draw(t, "order")})
 	}
+	p.AckRejected = rapid.IntRange(0, 2).Draw(t, "ackrejected") == 0
 	nk := rapid.IntRange(1, 4).Draw(t, "nkinds")
 	for i := 0; i < nk; i++ {
 		p.Kinds = append(p.Kinds, rapid.SampledFrom(scen.ReqKinds).Draw(t, "kind"))
@@ -411,6 +423,9 @@ func TestC11(t *testing.T) {
 					}
 				}
 			}
+		}
+		for i := range plans {
+			plans[i].AckRejected = i%3 == 1
 		}
 		stride := run.Pick(5, 1)
 		for i, p := range plans {
